@@ -141,3 +141,59 @@ class NData(Contract):
     def ensures(self, c, a, result, old):
         v, f, e = source_arrays(c, a.self)
         return {'counts_1_and_4': compare('==', result, c.Sum(v.n, lambda j: ite(bor(v[j] == 1, v[j] == 4), 1, 0), opaque=True))}
+
+
+@contract
+class FromAscii(Contract):
+    """Source.from_ascii(line): with L whitespace-separated columns, L < 3 ends the input
+    (EOFError); otherwise the line is accepted iff L = 3(n+1) and every flag is in
+    {0,1,2,3,4,9}, and then name, coordinates, the n flags and the n (flux, error) pairs are
+    taken from the documented columns.  (Tokens are assumed to be well-formed numbers: a
+    non-numeric token makes numpy raise ValueError, which is a rejection as well.)"""
+    name = SOURCE + '.from_ascii'
+    properties = ('C20', 'C10')
+
+    def setup(self, c):
+        import z3
+        from sedvc.interp import ClassVal
+        L = z3.Int('n_columns')
+        c.assume(Sc(L) >= 0)
+        ci = c.interp.repo.find_class(SOURCE)
+        return dict(cls=ClassVal(ci), line=Opaque('line', L))
+
+    def _cols(self, c, a):
+        from sedvc.extmodels import PARSE_INT, PARSE_FLOAT
+        L = Sc(a.line.info)
+        pi = lambda k: Sc(PARSE_INT(__import__('sedvc.sym', fromlist=['x']).to_z3(k, 'int')))
+        pf = lambda k: Sc(PARSE_FLOAT(__import__('sedvc.sym', fromlist=['x']).to_z3(k, 'int')))
+        return L, pi, pf
+
+    def raises(self, c, a):
+        L, pi, pf = self._cols(c, a)
+        n = (L - 3) // 3
+        bad_flag = c.Any(n, lambda k: bnot(c.isin(pi(3 + k), FLAGS)))
+        return {'EOFError': L < 3,
+                'ValueError': band(L >= 3, bor(bnot(L % 3 == 0), bad_flag))}
+
+    def result(self, c, a):
+        L, pi, pf = self._cols(c, a)
+        n = (L - 3) // 3
+        return c.obj(SOURCE, _name=Opaque('token', 0), _x=pf(1), _y=pf(2),
+                     _valid=c.defined_array((n,), lambda idx: pi(3 + idx[0]), 'int'),
+                     _flux=c.defined_array((n,), lambda idx: pf(3 + n + 2 * idx[0])),
+                     _error=c.defined_array((n,), lambda idx: pf(4 + n + 2 * idx[0])))
+
+    def ensures(self, c, a, result, old):
+        L, pi, pf = self._cols(c, a)
+        s = result
+        v, f, e = source_arrays(c, s)
+        n = v.n
+        nm = c.attr(s, '_name')
+        return {
+            'layout': band(L >= 3, compare('==', L, 3 * (n + 1))),
+            'name_is_column_1': isinstance(nm, Opaque) and nm.tag == 'token' and (nm.info == 0 or (isinstance(nm.info, int) and nm.info == 0)),
+            'coordinates': band(c.attr(s, '_x') == pf(1), c.attr(s, '_y') == pf(2)),
+            'lengths': band(compare('==', f.n, n), compare('==', e.n, n)),
+            'column_association': c.forall(n, lambda k: c.and_(v[k] == pi(3 + k), f[k] == pf(3 + n + 2 * k), e[k] == pf(4 + n + 2 * k)), 'columns'),
+            'flags_valid': c.forall(n, lambda k: c.isin(v[k], FLAGS), 'flags'),
+        }
